@@ -47,6 +47,9 @@ func (p PathSpec) String() string {
 		if printFamily[p.V] {
 			return "fmt/" + p.V
 		}
+		if p.V == "freeform" {
+			return fmt.Sprintf("fmt/freeform(%q)", p.Flags)
+		}
 		return "fmt/" + p.V + "(" + p.directive(false) + ")"
 	}
 	return p.K + "/" + p.V
@@ -54,7 +57,11 @@ func (p PathSpec) String() string {
 
 // out is one labelled output of a path (a path may produce several: the
 // rendering, the error text, sub-renderings).
+// A label starting with "scan:" marks an output that is searched for
+// sentinels but not compared between the two assignments.
 type out struct{ label, text string }
+
+func (o out) scanOnly() bool { return strings.HasPrefix(o.label, "scan:") }
 
 const (
 	fmtVerbs    = "vsqxXdcbotUeEfFgGpTw" // every verb fmt knows …
@@ -131,6 +138,8 @@ func sigFor(p PathSpec, label string, si *shapeInfo) string {
 			return "fmt/%v"
 		}
 		switch {
+		case p.V == "freeform":
+			return "fmt/freeform"
 		case p.Verb == "v" && strings.Contains(p.Flags, "#"):
 			return "fmt/%#v"
 		default:
@@ -154,6 +163,8 @@ func sigFor(p PathSpec, label string, si *shapeInfo) string {
 	}
 }
 
+var reAnyBadVerb = regexp.MustCompile(`(?s)%!.\(`)
+
 var reBadOperand = regexp.MustCompile(`\((MISSING|BADINDEX|BADWIDTH|BADPREC)\)`)
 
 // badVerbZone: does fmt reject the verb of p for (some value inside) this
@@ -162,18 +173,26 @@ var reBadOperand = regexp.MustCompile(`\((MISSING|BADINDEX|BADWIDTH|BADPREC)\)`)
 // then carries fmt's bad-verb report "%!verb(type=value)".  That report prints
 // the operand with Stringer/GoStringer disabled, which is the root cause of
 // the listed finding leak/fmt/bad-verb.
-func badVerbZone(p PathSpec, shape *Node, si *shapeInfo) bool {
-	if p.K != "fmt" || printFamily[p.V] || p.Verb == "" {
+func badVerbZone(p PathSpec, shape *Node, si *shapeInfo, cleanV *any) bool {
+	if p.K == "fmt" && printFamily[p.V] {
 		return false
 	}
-	n := slots(shape)
-	clean := make([][]byte, n)
-	for j := range clean {
-		clean[j] = []byte(fmt.Sprintf("clean%d", j))
+	needle := "%!" + p.Verb + "("
+	if p.K != "fmt" || p.V == "freeform" {
+		// paths that format through directives of their own (template printf,
+		// zap's sugared Infof, generated format strings): any bad-verb report
+		needle = ""
 	}
-	v := newBuilder().instantiate(shape, clean).Interface()
-	for _, o := range render(p, v, si) {
-		if strings.Contains(reBadOperand.ReplaceAllString(o.text, ""), "%!"+p.Verb+"(") {
+	if *cleanV == nil {
+		clean := make([][]byte, slots(shape))
+		for j := range clean {
+			clean[j] = []byte(fmt.Sprintf("clean%d", j))
+		}
+		*cleanV = newBuilder().instantiate(shape, clean).Interface()
+	}
+	for _, o := range render(p, *cleanV, si) {
+		txt := reBadOperand.ReplaceAllString(o.text, "")
+		if (needle != "" && strings.Contains(txt, needle)) || (needle == "" && reAnyBadVerb.MatchString(txt)) {
 			return true
 		}
 	}
@@ -299,6 +318,9 @@ func renderFmt(p PathSpec, v any) []out {
 		return []out{{"out", buf.String()}}
 	case "twice":
 		return []out{{"out", fmt.Sprintf(f+"/"+f, append(a, a...)...)}}
+	case "freeform":
+		// p.Flags holds a whole generated format string
+		return []out{{"out", fmt.Sprintf(p.Flags, v, v, v)}, {"errorf", fmt.Errorf(p.Flags, v, 3, v).Error()}}
 	case "sprint":
 		return []out{{"out", fmt.Sprint(v)}}
 	case "sprintln":
@@ -500,21 +522,34 @@ func renderXML(variant string, v any) []out {
 func renderGob(v any, si *shapeInfo) []out {
 	var buf bytes.Buffer
 	err := gob.NewEncoder(&buf).Encode(v)
-	b := buf.Bytes()
-	label := "out"
-	if si.multiMap {
-		// gob walks maps in Go's random iteration order: compare the byte
-		// multiset instead of the byte sequence (still secret-sensitive).
-		b = append([]byte{}, b...)
-		sort.Slice(b, func(i, j int) bool { return b[i] < b[j] })
-		label = "out-sorted-bytes"
+	if !si.multiMap {
+		return []out{{"out", buf.String()}, {"err", errText(err)}}
 	}
-	return []out{{label, string(b)}, {"err", errText(err)}}
+	// gob walks maps in Go's random iteration order: the byte sequence is only
+	// searched for sentinels; what is compared is the byte multiset (still
+	// secret-sensitive).  When encoding fails half-way, which generated key
+	// (k0, k1, …) was already written depends on that order too: digits are
+	// dropped from the multiset then.
+	raw := buf.String()
+	b := append([]byte{}, buf.Bytes()...)
+	sort.Slice(b, func(i, j int) bool { return b[i] < b[j] })
+	sorted := string(b)
+	if err != nil {
+		sorted = strings.Map(func(r rune) rune {
+			if r >= '0' && r <= '9' {
+				return -1
+			}
+			return r
+		}, sorted)
+	}
+	return []out{{"scan:out-raw", raw}, {"out-sorted-bytes", sorted}, {"err", errText(err)}}
 }
 
 // confmap's encoder walks Go maps in random order and reports the first error
 // it meets: quoted generated keys in error texts are made anonymous.
 var reGenKey = regexp.MustCompile(`"[kh][0-9]+"`)
+
+var reAddr = regexp.MustCompile(`0x[0-9a-f]{6,}`)
 
 type fieldHolder struct {
 	Inner any            `mapstructure:"inner"`
@@ -534,7 +569,9 @@ func renderConfmap(variant string, v any) []out {
 	err := conf.Marshal(in)
 	o := []out{{"err", reGenKey.ReplaceAllString(errText(err), `"k#"`)}}
 	m := conf.ToStringMap()
-	o = append(o, out{"tsm%v", fmt.Sprintf("%v|%+v", m, m)}, out{"tsm%#v", fmt.Sprintf("%#v", m)})
+	// koanf deep-copies the map: pointers kept below arrays (which the encoder
+	// does not descend into) are fresh allocations in every ToStringMap call
+	o = append(o, out{"tsm%v", reAddr.ReplaceAllString(fmt.Sprintf("%v|%+v", m, m), "0xPTR")}, out{"tsm%#v", reAddr.ReplaceAllString(fmt.Sprintf("%#v", m), "0xPTR")})
 	jb, jerr := json.Marshal(m)
 	o = append(o, out{"tsm-json", string(jb) + "|" + errText(jerr)})
 	yb, yerr := goyaml3.Marshal(m)
@@ -546,7 +583,7 @@ func renderConfmap(variant string, v any) []out {
 	for _, k := range keys {
 		fmt.Fprintf(&sb, "%s=%v\n", k, conf.Get(k))
 	}
-	o = append(o, out{"get", sb.String()})
+	o = append(o, out{"get", reAddr.ReplaceAllString(sb.String(), "0xPTR")})
 	return o
 }
 
@@ -594,14 +631,25 @@ func renderZap(encName, field string, v any) []out {
 		}
 		l.Info("m", zap.Stringer("k", s))
 	case "stringers":
+		// no compile-time dependency on the method set of configopaque.String
+		var ss []fmt.Stringer
 		switch x := v.(type) {
 		case []configopaque.String:
-			l.Info("m", zap.Stringers("k", x))
+			for _, e := range x {
+				if s, ok := any(e).(fmt.Stringer); ok {
+					ss = append(ss, s)
+				}
+			}
 		case []*configopaque.String:
-			l.Info("m", zap.Stringers("k", x))
+			for _, e := range x {
+				if s, ok := any(e).(fmt.Stringer); ok {
+					ss = append(ss, s)
+				}
+			}
 		default:
 			return nil
 		}
+		l.Info("m", zap.Stringers("k", ss))
 	case "object":
 		l.Info("m", zap.Object("k", objWrap{v}))
 	case "inline":
